@@ -981,16 +981,16 @@ impl TypeChecker {
                 Ok(diverges)
             }
             Add | Sub | Mul | Div => {
-                let (operand_ty, mut diverges) = match checked_left {
-                    Some(checked) => checked,
-                    None => {
-                        let operand_ty = self.fresh_var();
-                        let ctx_left = ctx.with_type(operand_ty.clone());
-                        let diverges = self.expr(scope, &ctx_left, left)?;
-                        (operand_ty, diverges)
-                    }
+                let (operand_ty, checked) = match checked_left {
+                    Some((ty, diverges)) => (ty, Some(diverges)),
+                    None => (self.fresh_var(), None),
                 };
                 let new_ctx = ctx.with_type(operand_ty.clone());
+
+                let mut diverges = match checked {
+                    Some(diverges) => diverges,
+                    None => self.expr(scope, &new_ctx, left)?,
+                };
 
                 if self.type_info.is_numeric_type(&operand_ty) {
                     diverges |= self.expr(scope, &new_ctx, right)?;
